@@ -13,7 +13,8 @@
 EXTENDS Naturals, Sequences, FiniteSets, TLC, Json, IOUtils
 
 Forms == {"ptr", "ptrstruct", "chan", "func", "anonstruct", "complex", "emptyiface", "any", "error", "ioreader",
-          "lonelyiface", "union", "uintptr", "selfptr", "typeparam", "bytes", "rune", "uint64", "float32"}
+          "lonelyiface", "union", "uintptr", "selfptr", "typeparam", "bytes", "rune", "uint64", "float32",
+          "namedarray", "namedtime", "namedmap", "structval", "plainarray", "time", "duration"}   \* supported value types, unusual as map keys / type arguments
 Positions == {"field", "slice", "array", "mapval", "mapkey", "named", "embedded", "unionmember", "subpkg", "namedslice", "genericarg"}
 Spellings == {"oneletter", "oneletterunion", "shortpkg1", "shortpkg2", "groupedtype", "multiconst", "genericbasic",
               "constunderscore", "emptystruct", "unexportedonly", "enumunexported", "badplaceholder", "unknowncomment",
@@ -23,9 +24,9 @@ Spellings == {"oneletter", "oneletterunion", "shortpkg1", "shortpkg2", "groupedt
 Targets == {"go/unions", "go/sqlcrud", "go/sqlcrud+sets", "go/randdata", "sql", "typescript/types", "typescript/api", "dart"}
 
 (* positions Go itself rejects for a form (not well-typed, hence outside the property) *)
-Comparable(f) == f \notin {"func", "bytes"}
+Comparable(f) == f \notin {"func", "bytes", "namedmap"}
 WellTyped(f, p) == /\ (p = "mapkey" => Comparable(f))
-                   /\ (p = "embedded" => f \in {"ptrstruct", "error", "ioreader", "lonelyiface", "union"})
+                   /\ (p = "embedded" => f \in {"ptrstruct", "error", "ioreader", "lonelyiface", "union", "namedarray", "namedtime", "namedmap", "structval"})
                    /\ (p = "genericarg" => f \in {"uint64", "rune", "uintptr"})
                    /\ (f = "selfptr" => p \in {"field", "slice", "mapval"})
                    /\ (f = "typeparam" => p = "field")
@@ -34,7 +35,8 @@ Cases == {[kind |-> "form", form |-> f, pos |-> p] : <<f, p>> \in {fp \in Forms 
          \cup {[kind |-> "spelling", form |-> s, pos |-> ""] : s \in Spellings}
 
 (* what the analysis itself accepts (the generators refuse more: pointers, complex numbers...) *)
-SupportedByAnalysis(f) == f \in {"ptr", "ptrstruct", "union", "bytes", "rune", "uint64", "float32", "uintptr", "complex"}
+SupportedByAnalysis(f) == f \in {"ptr", "ptrstruct", "union", "bytes", "rune", "uint64", "float32", "uintptr", "complex",
+                                  "namedarray", "namedtime", "namedmap", "structval", "plainarray", "time", "duration"}
 ExpectedAnalysis(c) ==
     IF c.kind = "spelling" THEN (IF c.form = "unknowncomment" THEN "refuse" ELSE "ok")
     ELSE IF c.form \in {"ptr", "ptrstruct", "selfptr"} /\ c.pos = "named" THEN "refuse"      \* named pointer types
